@@ -29,7 +29,7 @@ CONSTANTS
   ResumeKinds,  \* subset of {"msg", "timeout", "expiration", "dial"}
   NodeKinds,    \* subset of {"act", "failact", "split", "wait", "enter"}
   DfltChoices,  \* subset of BOOLEAN: may switch routers lack a default category
-  FaultKinds,   \* subset of {"flow_gone", "node_gone", "wait_gone", "wait_dial"} (asset faults between sprints)
+  FaultKinds,   \* subset of {"flow_gone", "parent_gone", "node_gone", "wait_gone", "wait_dial"} (asset faults between sprints)
   MaxFaults,
   Quirks        \* named deviations of the code from the design, e.g. {"stale_step"}
 
@@ -194,7 +194,8 @@ LoopDone ==
                             /\ runs' = o.rs /\ exit' = o.ex /\ events' = events \o o.evs
                 ELSE \* the child's failure bubbles up
                      /\ runs' = ExitRun(rs1, p, "failed") /\ exit' = NoExit
-                     /\ events' = Append(events, Ev("failure", p, LastStep(rs1, p)))
+                     \* run.PathLocation() gives no step when the node of the last step cannot be looked up any more
+                     /\ events' = Append(events, Ev("failure", p, IF rs1[p].flow \in gone \/ DefOfLast(rs1, p).kind = "gone" THEN NoStep ELSE LastStep(rs1, p)))
              /\ UNCHANGED <<status, pc>>
         ELSE /\ runs' = rs1 /\ exit' = NoExit /\ cur' = cur
              /\ status' = IF rs1[cur].status = "failed" THEN "failed" ELSE "completed"
@@ -335,13 +336,17 @@ AssetFault(fk) ==
   /\ pc = "idle" /\ status = "waiting" /\ WaitingRun # 0 /\ nfaults < MaxFaults /\ ncalls < MaxCalls
   /\ LET w == WaitingRun  f == runs[w].flow  n == NodeOfLast(runs, w) IN
      CASE fk = "flow_gone" -> gone' = gone \cup {f} /\ UNCHANGED def
+       \* the flow of the run that is paused above the waiting one disappears (the waiting run's own flow stays)
+       [] fk = "parent_gone" -> /\ runs[w].parent # 0 /\ runs[runs[w].parent].flow # f /\ runs[runs[w].parent].flow \notin gone
+                                /\ gone' = gone \cup {runs[runs[w].parent].flow} /\ UNCHANGED def
        [] fk = "node_gone" -> def' = [def EXCEPT ![f][n] = Gone] /\ UNCHANGED gone
        [] fk = "wait_gone" -> def[f][n].kind = "wait" /\ def' = [def EXCEPT ![f][n].kind = "split"] /\ UNCHANGED gone
        [] fk = "wait_dial" -> def[f][n].kind = "wait" /\ def' = [def EXCEPT ![f][n].kind = "dialwait"] /\ UNCHANGED gone
   /\ nfaults' = nfaults + 1
   /\ UNCHANGED <<trig, trigch, status, runs, pc, cur, exit, pushed, nsteps, stepreg, nwaits, events, err, ncalls>>
   /\ LET w == WaitingRun IN
-       hist' = Append(hist, [op |-> "fault", kind |-> fk, choice |-> -1, f |-> runs[w].flow, n |-> NodeOfLast(runs, w),
+       hist' = Append(hist, [op |-> "fault", kind |-> fk, choice |-> -1,
+                             f |-> IF fk = "parent_gone" THEN runs[runs[w].parent].flow ELSE runs[w].flow, n |-> NodeOfLast(runs, w),
                              was |-> def[runs[w].flow][NodeOfLast(runs, w)]])
   /\ UNCHANGED <<plan, exps>>
 
